@@ -9,7 +9,7 @@
 //! build/restart with scope all/current.  Cookies are logged as small integers by first appearance.
 
 use aldrin::low_level::{Service, ServiceInfo};
-use aldrin::{Discoverer, Handle, Object};
+use aldrin::{Discoverer, Handle, Lifetime, LifetimeId, Object};
 use aldrin_core::{ObjectUuid, ServiceUuid};
 use bus_driver::roles::{obj_uuid, svc_uuid};
 use bus_driver::Bus;
@@ -69,6 +69,9 @@ async fn script(owner: Handle, watcher: Handle, ops: Vec<J>, log: Rc<RefCell<Vec
     let mut objects: HashMap<u64, Object> = HashMap::new();
     let mut services: HashMap<(u64, u64), Service> = HashMap::new();
     let mut disc: Option<Discoverer<u32>> = None;
+    // ids of every object ever created (model cookie token -> real id), and the lifetimes bound so far
+    let mut ids: HashMap<(u64, i64), LifetimeId> = HashMap::new();
+    let mut lifetimes: Vec<(u64, i64, Lifetime, bool)> = Vec::new();
     for op in ops {
         let name = op["op"].as_str().unwrap().to_string();
         let o = op["o"].as_u64().unwrap_or(0);
@@ -80,10 +83,21 @@ async fn script(owner: Handle, watcher: Handle, ops: Vec<J>, log: Rc<RefCell<Vec
             "co" => match owner.create_object(ou(o)).await {
                 Ok(obj) => {
                     c = tok.of(obj.id().cookie.0);
+                    ids.insert((o, c), obj.lifetime_id());
                     objects.insert(o, obj);
                 }
                 Err(_) => ok = false,
             },
+            "lt" => {
+                c = op["c"].as_i64().unwrap_or(0);
+                match ids.get(&(o, c)) {
+                    Some(id) => match watcher.create_lifetime(*id).await {
+                        Ok(lt) => lifetimes.push((o, c, lt, false)),
+                        Err(_) => ok = false,
+                    },
+                    None => ok = false,
+                }
+            }
             "do" => match objects.remove(&o) {
                 Some(obj) => {
                     services.retain(|k, _| k.0 != o);
@@ -153,8 +167,21 @@ async fn script(owner: Handle, watcher: Handle, ops: Vec<J>, log: Rc<RefCell<Vec
                 view.push(json!({"key": key, "items": items}));
             }
         }
+        // every bound lifetime is polled once
+        let mut lts = Vec::new();
+        for (lo, lc, lt, ended) in lifetimes.iter_mut() {
+            if !*ended {
+                let r = std::future::poll_fn(|cx| match lt.poll_ended(cx) {
+                    Poll::Ready(()) => Poll::Ready(true),
+                    Poll::Pending => Poll::Ready(false),
+                })
+                .await;
+                *ended = r;
+            }
+            lts.push(json!({"o": lo, "c": lc, "ended": ended}));
+        }
         log.borrow_mut().push(json!({"t": "step", "op": name, "o": o, "s": s, "c": c, "scope": scope, "ok": ok,
-            "running": disc.is_some(), "finished": finished, "events": events, "view": view}));
+            "running": disc.is_some(), "finished": finished, "events": events, "view": view, "lts": lts}));
     }
 }
 
